@@ -586,11 +586,15 @@ class Engine:
         if isinstance(st, ast.If):
             c = as_bool(ExprEval(env, self).ev(st.test))
             base = self.curpath
-            out = []
             self.emit("cover[then]", base + [c], z3.BoolVal(True), st.lineno, expect_sat=True)
-            out.extend(self.exec_block(st.body, dict(env), base + [c]))
-            out.extend(self.exec_block(st.orelse, dict(env), base + [z3.Not(c)]) if st.orelse else [(dict(env), base + [z3.Not(c)])])
-            return out
+            then_states = self.exec_block(st.body, dict(env), base + [c])
+            else_states = self.exec_block(st.orelse, dict(env), base + [z3.Not(c)]) if st.orelse else [(dict(env), base + [z3.Not(c)])]
+            if self.opaque_ok and len(then_states) == 1 and len(else_states) == 1:
+                # block-extraction mode: join the two branches into one state (values become if-then-else terms) to avoid path explosion
+                merged = self.merge_states(c, base, then_states[0], else_states[0])
+                if merged is not None:
+                    return [merged]
+            return then_states + else_states
         if isinstance(st, ast.Return):
             val = ExprEval(env, self).ev(st.value) if st.value is not None else None
             self.on_return(val, env, self.curpath, st.lineno)
@@ -609,6 +613,57 @@ class Engine:
             env["__continue__" if isinstance(st, ast.Continue) else "__break__"] = True
             return [(env, path)]
         raise Unsupported("statement %s" % type(st).__name__)
+
+    def merge_states(self, c, base, st_then, st_else):
+        (e1, p1), (e2, p2) = st_then, st_else
+        for flag in ("__continue__", "__break__"):
+            if bool(e1.get(flag)) != bool(e2.get(flag)):
+                return None
+        n = len(base)
+        if p1[:n] != base or p2[:n] != base:
+            return None
+        path = list(base) + [z3.Implies(c, x) for x in p1[n + 1:]] + [z3.Implies(z3.Not(c), x) for x in p2[n + 1:]]
+
+        def join(a, b):
+            if a is b:
+                return a
+            if isinstance(a, Opaque) or isinstance(b, Opaque):
+                return Opaque("join")
+            if isinstance(a, Arr2) and isinstance(b, Arr2):
+                return Arr2(z3.If(c, a.term, b.term), a.shape)
+            if isinstance(a, Arr1) and isinstance(b, Arr1):
+                return Arr1(lambda i, a=a, b=b: z3.If(c, as_int(a.get(i)), as_int(b.get(i))), z3.If(c, a.length, b.length))
+            if isinstance(a, Small) and isinstance(b, Small) and a.shape == b.shape:
+                out = Small(a.shape)
+                if len(a.shape) == 1:
+                    out.data = [join(x, y) for x, y in zip(a.data, b.data)]
+                else:
+                    out.data = [[join(x, y) for x, y in zip(r, q)] for r, q in zip(a.data, b.data)]
+                return out
+            if isinstance(a, tuple) and isinstance(b, tuple) and len(a) == len(b):
+                return tuple(join(x, y) for x, y in zip(a, b))
+            if a is None or b is None:
+                return a if b is None else b
+            if isinstance(a, (PairDict, PairList)) or isinstance(b, (PairDict, PairList)):
+                raise Unsupported("join of containers")
+            if isinstance(a, bool) or isinstance(b, bool) or (z3.is_expr(a) and z3.is_bool(a)) or (z3.is_expr(b) and z3.is_bool(b)):
+                if (isinstance(a, bool) or z3.is_bool(a)) and (isinstance(b, bool) or z3.is_bool(b)):
+                    return z3.If(c, as_bool(a), as_bool(b))
+            return z3.If(c, as_int(a), as_int(b))
+
+        env = {}
+        try:
+            for k in set(e1) | set(e2):
+                if k in ("__continue__", "__break__"):
+                    env[k] = e1.get(k)
+                    continue
+                if k in e1 and k in e2:
+                    env[k] = join(e1[k], e2[k])
+                else:
+                    env[k] = e1.get(k, e2.get(k))
+        except Unsupported:
+            return None
+        return env, path
 
     def eval_rhs(self, node, env, path):
         # allocation calls
